@@ -11,17 +11,13 @@ import (
 	"strings"
 	"time"
 
+	"github.com/relab/gorums"
 	"github.com/relab/hotstuff"
 	"github.com/relab/hotstuff/core"
 	"github.com/relab/hotstuff/core/eventloop"
 	"github.com/relab/hotstuff/core/logging"
 	"github.com/relab/hotstuff/internal/proto/clientpb"
 	"github.com/relab/hotstuff/internal/proto/hotstuffpb"
-	"github.com/relab/hotstuff/server"
-	"github.com/relab/gorums"
-	"google.golang.org/grpc/metadata"
-	"google.golang.org/grpc/peer"
-	"google.golang.org/protobuf/proto"
 	"github.com/relab/hotstuff/protocol"
 	"github.com/relab/hotstuff/protocol/comm"
 	"github.com/relab/hotstuff/protocol/consensus"
@@ -32,6 +28,10 @@ import (
 	"github.com/relab/hotstuff/security/blockchain"
 	"github.com/relab/hotstuff/security/cert"
 	"github.com/relab/hotstuff/security/crypto"
+	"github.com/relab/hotstuff/server"
+	"google.golang.org/grpc/metadata"
+	"google.golang.org/grpc/peer"
+	"google.golang.org/protobuf/proto"
 )
 
 // replica family (C03, C07, C08, C09, C10, C06, C01): ONE real replica, wired as twins/node.go
@@ -51,26 +51,30 @@ import (
 //
 // answer: effects in order, separated by " ; ", then " | " and the state dump.
 type replicaFam struct {
-	wireFam
-	id        hotstuff.ID
-	el        *eventloop.EventLoop
-	chain     *blockchain.Blockchain
-	states    *protocol.ViewStates
-	voter     *consensus.Voter
-	proposer  *consensus.Proposer
-	ruleset   consensus.Ruleset
-	lr        leaderrotation.LeaderRotation
-	fetchable map[hotstuff.Hash]*hotstuff.Block
-	log       []func() string
-	svc       hotstuffpb.ConsensusServer
-	nwire     int
+	*wireFam
+	pfx        string // prefix of the names of this replica's own objects ("own"; "r<i>" in a cluster)
+	cmdClient  uint32 // client id of the pre-loaded commands
+	cluster    *clusterFam
+	fetchPeers bool
+	sent       []any // messages handed to the sender during the current step (cluster routing)
+	id         hotstuff.ID
+	el         *eventloop.EventLoop
+	chain      *blockchain.Blockchain
+	states     *protocol.ViewStates
+	voter      *consensus.Voter
+	proposer   *consensus.Proposer
+	ruleset    consensus.Ruleset
+	lr         leaderrotation.LeaderRotation
+	fetchable  map[hotstuff.Hash]*hotstuff.Block
+	log        []func() string
+	svc        hotstuffpb.ConsensusServer
+	nwire      int
 }
 
 func init() {
 	register("replica", func() family {
-		f := &replicaFam{fetchable: map[hotstuff.Hash]*hotstuff.Block{}}
-		f.sis = map[string]hotstuff.SyncInfo{}
-		f.sigNum = map[string]int{}
+		f := &replicaFam{fetchable: map[hotstuff.Hash]*hotstuff.Block{}, pfx: "own", cmdClient: 9}
+		f.wireFam = &wireFam{sis: map[string]hotstuff.SyncInfo{}, sigNum: map[string]int{}}
 		return f
 	})
 }
@@ -80,12 +84,14 @@ func init() {
 type recSender struct{ f *replicaFam }
 
 func (s recSender) NewView(id hotstuff.ID, si hotstuff.SyncInfo) error {
+	s.f.sent = append(s.f.sent, sentNewView{id, si})
 	s.f.log = append(s.f.log, func() string { return fmt.Sprintf("newview(to=%d,%s)", id, s.f.dSI(si)) })
 	return nil
 }
 
 func (s recSender) Vote(id hotstuff.ID, pc hotstuff.PartialCert) error {
-	s.f.sigs["own.vote."+s.f.hashName(pc.BlockHash())] = pc.Signature()
+	s.f.sigs[s.f.pfx+".vote."+s.f.hashName(pc.BlockHash())] = pc.Signature()
+	s.f.sent = append(s.f.sent, sentVote{id, pc})
 	s.f.log = append(s.f.log, func() string {
 		return fmt.Sprintf("vote(to=%d,blk=%s,sig=%s)", id, s.f.hashName(pc.BlockHash()), s.f.dSig(pc.Signature()))
 	})
@@ -93,11 +99,12 @@ func (s recSender) Vote(id hotstuff.ID, pc hotstuff.PartialCert) error {
 }
 
 func (s recSender) Timeout(t hotstuff.TimeoutMsg) {
-	s.f.sigs[fmt.Sprintf("own.vs.%d", t.View)] = t.ViewSignature
+	s.f.sigs[fmt.Sprintf("%s.vs.%d", s.f.pfx, t.View)] = t.ViewSignature
 	if t.MsgSignature != nil {
-		s.f.sigs[fmt.Sprintf("own.ms.%d", t.View)] = t.MsgSignature
+		s.f.sigs[fmt.Sprintf("%s.ms.%d", s.f.pfx, t.View)] = t.MsgSignature
 	}
-	s.f.tmos[fmt.Sprintf("own.tmo.%d", t.View)] = t
+	s.f.tmos[fmt.Sprintf("%s.tmo.%d", s.f.pfx, t.View)] = t
+	s.f.sent = append(s.f.sent, t)
 	s.f.log = append(s.f.log, func() string {
 		return fmt.Sprintf("timeout(id=%d,v=%d,vs=%s,ms=%s,%s)", t.ID, t.View, s.f.dSig(t.ViewSignature), s.f.dSig(t.MsgSignature), s.f.dSI(t.SyncInfo))
 	})
@@ -105,6 +112,7 @@ func (s recSender) Timeout(t hotstuff.TimeoutMsg) {
 
 func (s recSender) Propose(p *hotstuff.ProposeMsg) {
 	s.f.nameOwn(p.Block)
+	s.f.sent = append(s.f.sent, *p)
 	s.f.log = append(s.f.log, func() string {
 		b := p.Block
 		qc := s.f.dQC(b.QuorumCert()) // numbered before the aggregate QC, as the model renders it
@@ -117,8 +125,23 @@ func (s recSender) Propose(p *hotstuff.ProposeMsg) {
 }
 
 func (s recSender) RequestBlock(_ context.Context, h hotstuff.Hash) (*hotstuff.Block, bool) {
-	b, ok := s.f.fetchable[h]
-	return b, ok
+	if b, ok := s.f.fetchable[h]; ok {
+		return b, true
+	}
+	if s.f.cluster != nil {
+		return s.f.cluster.peerFetch(s.f, h)
+	}
+	return nil, false
+}
+
+type sentVote struct {
+	to hotstuff.ID
+	pc hotstuff.PartialCert
+}
+
+type sentNewView struct {
+	to hotstuff.ID
+	si hotstuff.SyncInfo
 }
 
 func (s recSender) Sub([]hotstuff.ID) (core.Sender, error) { return s, nil }
@@ -226,7 +249,7 @@ func (f *replicaFam) build(r int, rulesName, leader string) string {
 	f.voter = consensus.NewVoter(cfg, lr, f.ruleset, cl, auth, committer)
 	cmds := clientpb.NewCommandCache(1)
 	for i := 1; i <= 3000; i++ {
-		cmds.Add(&clientpb.Command{ClientID: 9, SequenceNumber: uint64(i), Data: []byte(fmt.Sprintf("c%d", i))})
+		cmds.Add(&clientpb.Command{ClientID: f.cmdClient, SequenceNumber: uint64(i), Data: []byte(fmt.Sprintf("c%d", i))})
 	}
 	f.proposer = consensus.NewProposer(f.el, cfg, f.chain, f.states, f.ruleset, cl, f.voter, cmds, committer)
 	synchronizer.New(f.el, logger, cfg, auth, lr, synchronizer.NewFixedDuration(24*time.Hour),
